@@ -385,8 +385,9 @@ def configs(tier, rng):
         ilo, ihi = LatticeInitCase()._init_range(dict(output_min=lo, output_max=hi))
         if not ilo < ihi:
           continue
-        jobs.append(('lattice', dict(sizes=sizes, units=1 + len(sizes) % 2, monos=[1] * rank, output_min=lo,
-                                     output_max=hi, init='random_monotonic_initializer')))
+        for units in ((1, 2, 3) if (lo, hi) == ranges[1] else (1 + len(sizes) % 2,)):
+          jobs.append(('lattice', dict(sizes=sizes, units=units, monos=[1] * rank, output_min=lo,
+                                       output_max=hi, init='random_monotonic_initializer')))
   for nk in (2, 3, 4, 5):
     for units in (1, 2):
       for mono in (1, 0, -1):
